@@ -33,6 +33,19 @@ DEFAULT_HYPER = {"lr_a": 0.8, "lr_b": -0.5, "tc_a": 7.0, "tc_b": 11.0, "lr_a3": 
                  "tc_b_slow": 40.0, "tc_elig": 15.0, "trace_mode": "cumulative", "delayed": False}
 
 
+OSC = 0.9   # rad / ms
+
+
+def osc_post_kernel(diff, learning_rate, time_constant, **kwargs):
+    """a user-supplied half kernel whose sign changes with the time difference (damped oscillation), causal half"""
+    return torch.exp(diff.abs() / (-time_constant)) * torch.cos(diff * OSC) * (learning_rate * (diff >= 0).to(dtype=diff.dtype))
+
+
+def osc_pre_kernel(diff, learning_rate, time_constant, **kwargs):
+    """anti-causal half of the damped-oscillation kernel"""
+    return torch.exp(diff.abs() / (-time_constant)) * torch.cos(diff * OSC) * (learning_rate * (diff < 0).to(dtype=diff.dtype))
+
+
 def _tensorize(kw, which):
     """kernel hyper-parameters as 0-dim tensors (documented: stored as buffers on the cell state)"""
     return {k: (torch.tensor(float(v), dtype=torch.float64) if k in which else v) for k, v in kw.items()}
@@ -64,7 +77,9 @@ def _trainer_args(name, hyper):
         return {"lr_post": a, "lr_pre": b, "tc_post": ta, "tc_pre": tb, "tc_eligibility": h["tc_elig"], "trace_mode": h["trace_mode"]}
     if name in ("KernelSTDP", "DelayAdjustedKernelSTDP", "DelayAdjustedKernelSTDPD"):
         tk = h.get("tensor_kwargs", ())
-        kw = {"kernel_post": inff.exp_stdp_post_kernel, "kernel_pre": inff.exp_stdp_pre_kernel,
+        osc = h.get("kernel") == "osc"
+        kw = {"kernel_post": osc_post_kernel if osc else inff.exp_stdp_post_kernel,
+              "kernel_pre": osc_pre_kernel if osc else inff.exp_stdp_pre_kernel,
               "kernel_post_kwargs": _tensorize({"learning_rate": a, "time_constant": ta}, [k[5:] for k in tk if k.startswith("post_")]),
               "kernel_pre_kwargs": _tensorize({"learning_rate": b, "time_constant": tb}, [k[4:] for k in tk if k.startswith("pre_")])}
         if name == "KernelSTDP":
@@ -401,6 +416,8 @@ class Oracle:
         with np.errstate(invalid="ignore"):
             kp = np.exp(-np.abs(td) / ta) * a * (td >= 0)
             kq = np.exp(-np.abs(td) / tb) * b * (td < 0)
+            if self.h.get("kernel") == "osc":
+                kp, kq = kp * np.cos(td * OSC), kq * np.cos(td * OSC)
         kp, kq = np.nan_to_num(kp, nan=0.0), np.nan_to_num(kq, nan=0.0)
         pos = _reduce(self.red, np.clip(kp, 0, None).sum(-1)) + _reduce(self.red, np.clip(kq, 0, None).sum(-1))
         neg = -(_reduce(self.red, np.clip(kp, None, 0).sum(-1)) + _reduce(self.red, np.clip(kq, None, 0).sum(-1)))
